@@ -346,3 +346,150 @@ def c18_isolation(tier, rng):
                 "required": "answers depend on the record's own reference sequence only",
                 "replay_call": "contracts.c_strand:replay_isolation"}]}
     return {"cases": n, "bound": "%d random sequence pairs" % n, "violations": [], "samples": [{"seed": base}]}
+
+
+# ---- Canonical flags and model strands recounted from the bundled FASTA on generated loci (pipeline runs) -------------------------------------
+_FWD = {("GT", "AG"), ("GC", "AG"), ("AT", "AC")}
+_REV = {("CT", "AC"), ("CT", "GC"), ("GT", "AT")}
+
+
+def _snapped_loci_prepare(seed):
+    """loci as in C04.random_loci, but every splice site of about half of the loci is moved to the nearest canonical dinucleotide of the locus
+    strand in the bundled reference (GT..AG on '+', CT..AC on '-'), so both values of the flag occur"""
+    from contracts import c_novel
+    import random
+
+    def prepare(d):
+        import gzip, os
+        seq = "".join(l.strip() for l in gzip.open(os.path.join(d, "chr9.4M.fa.gz"), "rt") if not l.startswith(">")).upper()
+        rng = random.Random(seed + 7)
+        orig = c_novel._random_loci
+
+        def snapped(s):
+            loci = orig(s)
+            for L in loci:
+                if rng.random() < .5:
+                    continue
+                left, right = ("GT", "AG") if L["strand"] == "+" else ("CT", "AC")
+                full = L["isoforms"]["full"]
+                m = {}
+                for i in range(len(full) - 1):
+                    a = seq.find(left, full[i][1], full[i][1] + 60)          # intron starts at 1-based a+1: exon ends at a
+                    b = seq.rfind(right, full[i + 1][0] - 60, full[i + 1][0] - 1)   # intron ends at 1-based b+2: next exon starts at b+3
+                    if a > 0 and b > 0:
+                        m[("e", full[i][1])] = a
+                        m[("s", full[i + 1][0])] = b + 3
+                def mv(ex):
+                    return [(m.get(("s", x), x), m.get(("e", y), y)) for x, y in ex]
+                L["isoforms"] = {k: mv(v) for k, v in L["isoforms"].items()}
+                L["reads"] = [(kind, mv(chain), cnt) for kind, chain, cnt in L["reads"]]
+                L["snapped"] = True
+            return loci
+        c_novel._random_loci = snapped
+        try:
+            return c_novel._random_loci_prepare(seed)(d)
+        finally:
+            c_novel._random_loci = orig
+    return prepare
+
+
+def _canon_recount(seq, introns, strand):
+    if not introns:
+        return "Unspliced"
+    table = _FWD if strand == "+" else _REV
+    return str(all((seq[a - 1:a + 1], seq[b - 2:b]) in table for a, b in introns))
+
+
+def _canonical_pipeline_problems(seed, annotated):
+    import gzip, os, shutil
+    from contracts import c_novel
+    d, p = c_novel._run_pipeline(["--check_canonical"], annotated, _snapped_loci_prepare(seed))
+    problems, stats = [], {"True": 0, "False": 0, "Unspliced": 0, "models": 0}
+    try:
+        if p.returncode != 0:
+            return ["isoquant exited %d: %s" % (p.returncode, p.stderr[-300:])], stats
+        seq = "".join(l.strip() for l in gzip.open(os.path.join(d, "chr9.4M.fa.gz"), "rt") if not l.startswith(">")).upper()
+        out = os.path.join(d, "out", "S")
+        ra = os.path.join(out, "S.read_assignments.tsv.gz")
+        if annotated and os.path.exists(ra):
+            for line in gzip.open(ra, "rt"):
+                if line.startswith("#"):
+                    continue
+                f = line.rstrip("\n").split("\t")
+                info = dict(kv.strip().split("=", 1) for kv in f[8].strip().strip(";").split(";") if "=" in kv)
+                if "Canonical" not in info:
+                    continue
+                ex = [tuple(int(x) for x in e.split("-")) for e in f[7].split(",")]
+                introns = [(ex[i][1] + 1, ex[i + 1][0] - 1) for i in range(len(ex) - 1)]
+                want = _canon_recount(seq, introns, f[2])
+                stats[want] = stats.get(want, 0) + 1
+                if info["Canonical"].strip() != want and f[2] in "+-":
+                    problems.append("read %s strand %s exons %s: Canonical=%s, recount from the FASTA gives %s" % (f[0], f[2], f[7], info["Canonical"], want))
+        for line in open(os.path.join(out, "S.transcript_models.gtf")):
+            if line.startswith("#"):
+                continue
+            f = line.rstrip("\n").split("\t")
+            if f[2] != "transcript":
+                continue
+            attrs = dict((kv.strip().split(" ", 1)[0], kv.strip().split(" ", 1)[1].strip('"')) for kv in f[8].split(";") if " " in kv.strip())
+            tid = attrs["transcript_id"]
+            models = c_novel._parse_gtf(os.path.join(out, "S.transcript_models.gtf")) if "models" not in locals() else models
+            t = models[tid]
+            if "Canonical" in attrs and t["strand"] in "+-":
+                want = _canon_recount(seq, list(t["introns"]), t["strand"])
+                stats["models"] += 1
+                if attrs["Canonical"] != want:
+                    problems.append("model %s strand %s introns %s: Canonical %s, recount gives %s" % (tid, t["strand"], t["introns"], attrs["Canonical"], want))
+            # strand of a novel spliced model against the evidence: all reads of the generated locus carry the tail of the locus strand; the
+            # splice sites speak for the strand on which all of them are canonical (if any)
+            if tid.startswith("transcript") and t["introns"]:
+                # the splice sites vote intron by intron (StrandDetector: majority of canonical sites); a tie leaves the decision to the tails
+                fwd = sum(1 for a, b in t["introns"] if (seq[a - 1:a + 1], seq[b - 2:b]) in _FWD)
+                rev = sum(1 for a, b in t["introns"] if (seq[a - 1:a + 1], seq[b - 2:b]) in _REV)
+                li = (t["exons"][0][0] - 3041000) // 9000
+                loci = c_novel._random_loci(seed)
+                if 0 <= li < len(loci):
+                    tail = loci[li]["strand"]
+                    want = "+" if fwd > rev else "-" if rev > fwd else tail
+                    # with an annotation, annotated introns carry the strand of their gene (the locus strand, = tail here): the sentence that
+                    # is then decidable from outside is the last one - the reported strand does not contradict ALL the evidence
+                    if (t["strand"] != want) if not annotated else (t["strand"] not in (want, tail)):
+                        problems.append("novel model %s is reported on strand %s; canonical splice sites: %d on '+', %d on '-', tails of all its reads: %s" % (
+                            tid, t["strand"], fwd, rev, tail))
+    finally:
+        shutil.rmtree(d, ignore_errors=True)
+    return problems, stats
+
+
+def replay_canonical_pipeline(d):
+    p, stats = _canonical_pipeline_problems(d["inputs"]["seed"], d["inputs"]["with_annotation"])
+    return (not p), "seed %s, with_annotation=%s: %s (%s)" % (d["inputs"]["seed"], d["inputs"]["with_annotation"], p[:4] or "flags and strands agree with the FASTA", stats)
+
+
+@bounded("C18.random_loci", ["C18"], shards=8, note="pipeline runs with --check_canonical on generated loci (as C04.random_loci; the splice sites of about half "
+         "of the loci moved to canonical dinucleotides of the locus strand in the bundled reference): the Canonical flag of every read and "
+         "the Canonical attribute of every model equal a recount from the FASTA on the reported strand; a novel spliced model is reported on the strand the majority "
+         "of its canonical splice sites vote for, on the strand of its reads' tails when they tie")
+def c18_random_loci(tier, rng):
+    n = 2 if tier == "quick" else 10
+    base = rng.randrange(10 ** 9)
+    viol, total = [], {}
+    cases = 0
+    for k in range(n):
+        for wa in (True, False):
+            if tier == "quick" and wa != (k % 2 == 0):
+                continue
+            cases += 1
+            p, stats = _canonical_pipeline_problems(base + k, wa)
+            for a, b in stats.items():
+                total[a] = total.get(a, 0) + b
+            if p:
+                viol.append({"obligation": "C18.random_loci.%s" % ("annotated" if wa else "annotation_free"),
+                             "inputs": {"seed": base + k, "with_annotation": wa}, "observed": p[:5],
+                             "required": "flags and strands are functions of the reference sequence", "replay_call": "contracts.c_strand:replay_canonical_pipeline"})
+                break
+        if viol:
+            break
+    if not viol and tier != "quick" and (total.get("True", 0) == 0 or total.get("False", 0) == 0):
+        viol.append({"obligation": "C18.random_loci.nontrivial", "inputs": None, "observed": str(total), "required": "both flag values occur", "undecided": True})
+    return {"cases": cases, "bound": "%d pipeline runs x 6 generated loci (read flags %s)" % (cases, total), "violations": viol, "samples": [{"seed": base, "flags": total}]}
